@@ -10,7 +10,8 @@ Pack      == [k |-> "pack", old |-> 0, new |-> 0]
 
 AllInits == {<<0, 0>>, <<1, 0>>, <<0, 1>>, <<2, 1>>}      \* absent, loose, packed, both (loose shadows packed)
 
-Writers  == {Cas(o, n) : o \in {-1, 0, 1, 2}, n \in {3, 4}} \cup {Add(3), Add(4)}
+\* Cas(0, 1): create-if-absent with the value the packed entry holds initially (the shortcut of F62)
+Writers  == {Cas(o, n) : o \in {-1, 0, 1, 2}, n \in {3, 4}} \cup {Add(3), Add(4), Cas(0, 1)}
 Deleters == {Del(o) : o \in {-1, 0, 1, 2}}
 OpsNoPack == Writers \cup Deleters \cup {Read}
 OpsNoDel  == Writers \cup {Read, Pack}
@@ -29,7 +30,7 @@ MenusNoDel  == {f \in [Actors -> OpsNoDel] : Sorted(f)}
 MenusAll    == {f \in [Actors -> OpsAll] : Sorted(f)}
 \* 3 actors: a reduced menu keeps the instance small
 Small == {Cas(-1, 3), Cas(1, 3), Cas(2, 4), Add(4), Read, Pack}
-SmallD == {Cas(1, 3), Cas(2, 4), Del(1), Del(2), Del(-1), Read}
+SmallD == {Cas(1, 3), Cas(2, 4), Cas(0, 1), Del(1), Del(2), Del(-1), Read}
 Menus3NoDel == {f \in [Actors -> Small] : Sorted(f)}
 Menus3NoPack == {f \in [Actors -> SmallD] : Sorted(f)}
 =============================================================================
